@@ -73,8 +73,9 @@ def container_scenario(ch, max_records=12, top="any", serial=True, logical=False
         sc.metadata = {ch.pick(["k", "user.key", "é"]): ch.pick(["", "v", "välue"])}
         if ch.chance(30):
             sc.metadata["second"] = "2"
-    if sc.codec == "deflate" and ch.chance(40):
-        sc.level = ch.pick([0, 1, 6, 9])
+    if ch.chance(40):
+        # codec_compression_level is accepted for every codec ("if the codec supports it")
+        sc.level = ch.pick([0, 1, 6, 9, -1])
     sc.parsed = ch.chance(40)
     return sc
 
